@@ -121,16 +121,16 @@ def resolve (bi : List Nat) (m : List Scope) (i n : Nat) : Option Binding :=
   | none => none
   | some s =>
     if mem n s.globals then globalLookup bi m n
-    else if mem n s.nonlocals then
-      (if s.parent < i then
-        match enclosing bi m n i s.parent with
-        | some (.enclosing j) => some (.enclosing j)
-        | _ => none
-       else none)
     else match s.kind with
       | .module => if i = 0 then globalLookup bi m n else none
       | _ =>
-        if mem n s.bound then some .local
+        if mem n s.nonlocals then
+          (if s.parent < i then
+            match enclosing bi m n i s.parent with
+            | some (.enclosing j) => some (.enclosing j)
+            | _ => none
+           else none)
+        else if mem n s.bound then some .local
         else if s.parent < i then enclosing bi m n i s.parent else none
 
 /-- `mo.a₁.a₂…`: every attribute exists, following sub-module objects as far as the chain stays
@@ -179,7 +179,15 @@ def excusedMem (e : Nat × Nat × Nat) : List (Nat × Nat × Nat) → Bool
   | [] => false
   | (a, b, c) :: r => (Nat.beq e.1 a && Nat.beq e.2.1 b && Nat.beq e.2.2 c) || excusedMem e r
 
+def Kind.isModule : Kind → Bool
+  | .module => true
+  | _ => false
+
+/-- Well-formedness of the table entry: a non-module scope's parent precedes it. -/
+def wfScope (i : Nat) (s : Scope) : Bool := s.kind.isModule || Nat.blt s.parent i
+
 def checkScope (p : Package) (ex : List (Nat × Nat × Nat)) (mi : Nat) (m : List Scope) (i : Nat) (s : Scope) : Bool :=
+  wfScope i s &&
   s.loads.all (fun l => (resolve p.builtins m i l.1).isSome || excusedMem (mi, i, l.1) ex) &&
   s.chains.all (chainCheck p m i)
 
